@@ -531,6 +531,13 @@ fn main() {
                         if !ev_cw["res"]["ok"].as_bool().unwrap_or(false) {
                             pulled = 0;
                         }
+                        // cw20 can pay the caller out and pull from it in one transaction; coins must be held when the call
+                        // is made: a caller whose wallet is smaller than the gross amount pulled attaches what it holds
+                        let wallet = nat.w.balance(sender).max(0);
+                        let short = pulled > wallet;
+                        if short {
+                            pulled = wallet;
+                        }
                         let mut o_nat = op.clone();
                         o_nat["funds"] = json!(pulled);
                         o_nat["fault"] = json!(0);
@@ -539,7 +546,7 @@ fn main() {
                         nat.out.clear();
                         i += 1;
                         writeln!(out, "{}", json!({"kind": ev_cw["kind"], "scn": id, "i": i, "tx": ev_cw["tx"],
-                            "cw": ev_cw, "nat": ev_nat, "funds": pulled})).unwrap();
+                            "cw": ev_cw, "nat": ev_nat, "funds": pulled, "short": short})).unwrap();
                     }
                 }
                 n += 1;
